@@ -227,12 +227,6 @@ variants:
 	}
 }
 
-func vc05Hash(s string) uint64 {
-	h := fnv.New64a()
-	h.Write([]byte(s))
-	return h.Sum64()
-}
-
 func TestVerifStandin_C05(t *testing.T) {
 	env := vc05getenv()
 	total := vc05newAgg()
@@ -325,7 +319,7 @@ func TestVerifStandin_C05(t *testing.T) {
 					break
 				}
 			}
-			_, dup := vc05Seen.LoadOrStore(vc05Hash(vc05Text(n, vc05Variants[0])), true)
+			_, dup := vc05Seen.LoadOrStore(vc05hash(vc05Text(n, vc05Variants[0])), true)
 			vc05CheckTree(n, a, &b, false, !dup)
 			if i == 0 && u%7 == 0 {
 				a.sample(vc05Text(n, vc05Variants[u%len(vc05Variants)]))
@@ -1021,6 +1015,12 @@ func vc05eraseRes(r vc05res) vc05res {
 		}
 	}
 	return r
+}
+
+func vc05hash(s string) uint64 {
+	h := fnv.New64a()
+	h.Write([]byte(s))
+	return h.Sum64()
 }
 
 // ---- aggregation, report ------------------------------------------------------
